@@ -143,48 +143,6 @@ Definition clean_preedit (c : cctx) : cctx * Z :=
 Definition clean_bopomofo (c : cctx) : cctx * Z := (with_ed c (ml_clear_syl (cx_ed c)), 0).
 Definition reset (c : cctx) : cctx := with_ed c (ml_clear (cx_ed c)).
 
-(* ---- histories of C calls ---- *)
-Inductive cop :=
-| CHandle (code mods : N)      (* the named chewing_handle_* entry points *)
-| CDefault (key : Z) | CCtrlNum (key : Z) | CNumlock (key : Z)
-| CSetKBType (n : Z) | CSetSelKey (keys : list Z)
-| CCandChoose (i : Z) | CCandOpen | CCandClose
-| CCommitPreedit | CCleanPreedit | CCleanBopomofo | CReset
-| CEditor (o : op).            (* any operation of the editor itself (options, engine, user phrases, ...) *)
-
-Definition drop_rc {A} (r : outcome (cctx * A)) : outcome cctx :=
-  match r with Ok x => Ok (fst x) | Err x => Err x | Panic s => Panic s | OutOfFuel => OutOfFuel end.
-
-Definition cstep (conv : conv_fn memdict) (c : cctx) (o : cop) : outcome cctx :=
-  match o with
-  | CHandle code mods => handle_code conv c code mods
-  | CDefault k => handle_default conv c k
-  | CCtrlNum k => drop_rc (handle_ctrlnum conv c k)
-  | CNumlock k => handle_numlock conv c k
-  | CSetKBType n => drop_rc (set_kbtype c n)
-  | CSetSelKey ks => Ok (set_selkey c ks)
-  | CCandChoose i => drop_rc (cand_choose conv c i)
-  | CCandOpen => drop_rc (cand_open c)
-  | CCandClose => Ok (fst (cand_close c))
-  | CCommitPreedit => drop_rc (commit_preedit conv c)
-  | CCleanPreedit => Ok (fst (clean_preedit c))
-  | CCleanBopomofo => Ok (fst (clean_bopomofo c))
-  | CReset => Ok (reset c)
-  | CEditor o => match step md_ops lay_ops conv (cx_ed c) o with
-                 | Ok e => Ok (with_ed c e)
-                 | Err x => Err x | Panic s => Panic s | OutOfFuel => OutOfFuel
-                 end
-  end.
-
-Fixpoint crun (conv : conv_fn memdict) (c : cctx) (ops : list cop) : outcome cctx :=
-  match ops with
-  | [] => Ok c
-  | o :: rest => match cstep conv c o with
-                 | Ok c' => crun conv c' rest
-                 | Err x => Err x | Panic s => Panic s | OutOfFuel => OutOfFuel
-                 end
-  end.
-
 (* ---- the query functions of the C API: projections of the context (capi/src/io.rs) ---- *)
 (* chewing_commit_Check / buffer_Check / buffer_Len / bopomofo_Check / cursor_Current / cand_CheckDone /
    cand_TotalPage / cand_ChoicePerPage / cand_TotalChoice / cand_CurrentPage / aux_Check / aux_Length /
